@@ -29,9 +29,9 @@ const NONCE_LEN_FIELD: usize = 2;
 // n bytes - encrypted DEK
 // n bytes - nonce
 // n bytes - opaque (AEAD encrypted seed + tag)
+// The wrapped DEK is opaque and provider-specific, nothing can be assumed about its length
 const MIN_PAYLOAD_SIZE: usize = DEK_LEN_FIELD
     + NONCE_LEN_FIELD
-    + DEK_LEN_BYTES
     + NONCE_LEN_BYTES
     + SEED_LENGTH as usize
     + TAG_LEN_BYTES;
